@@ -191,6 +191,12 @@ Theorem C18_numbers_are_list_elements :
 Proof. exact number_elem_reads. Qed.
 Print Assumptions C18_numbers_are_list_elements.
 
+Theorem C18_variables_are_list_elements :
+  forall float_ok (w : list byte) d, w <> [] -> Forall (fun b => is_token b = true) w ->
+    elem_reads float_ok (length w + 2) d (36 :: w) (PVar w).
+Proof. exact variable_elem_reads. Qed.
+Print Assumptions C18_variables_are_list_elements.
+
 Theorem C18_lists_are_list_elements :
   forall float_ok m d e v es vs,
     elem_reads float_ok m (S d) e v -> Forall2 (elem_reads float_ok m (S d)) es vs -> S d <= max_nesting ->
